@@ -43,9 +43,25 @@ func specValidHms(h, mi, s int) bool {
 }
 
 // specJDN: Julian Day Number of the civil day (Julian calendar up to
-// 1582-10-04, Gregorian from 1582-10-15), integer arithmetic only
-// (Fliegel/Van Flandern style with floor division on non-negative operands).
+// 1582-10-04, Gregorian from 1582-10-15), integer arithmetic only: the
+// integer form of Meeus' algorithm.  specJDNF below is the independent
+// Fliegel / Van Flandern form; check C04 proves the two equal for every
+// date of years 1..9998, so either may serve as the reference.
 func specJDN(y, m, d int) int {
+	greg := y > 1582 || (y == 1582 && (m > 10 || (m == 10 && d >= 15)))
+	if m <= 2 {
+		m += 12
+		y--
+	}
+	n := 0
+	if greg {
+		c := y / 100
+		n = 2 - c + c/4
+	}
+	return (1461*(y+4716))/4 + (306001*(m+1))/10000 + d + n - 1524
+}
+
+func specJDNF(y, m, d int) int {
 	a := (14 - m) / 12
 	yy := y + 4800 - a
 	mm := m + 12*a - 3
